@@ -91,7 +91,6 @@ theorem reset_overlap : overlap resetAssigns toDictReads = [⟨"PowerPump", "_ba
 (and that the translator could not show to be initialised by the run itself) -/
 def expectedNotReset : List Slot :=
   [⟨"HeadPump", "_speed_timeseries.base_value"⟩, ⟨"PowerPump", "_speed_timeseries.base_value"⟩,
-   ⟨"Reservoir", "_leak_status"⟩,
    ⟨"Control", "_condition._backtrack"⟩, ⟨"Control", "_which"⟩,
    ⟨"HeadPump", "_coeffs_curve_points"⟩, ⟨"HeadPump", "_curve_coeffs"⟩,
    ⟨"Rule", "_condition._backtrack"⟩, ⟨"Rule", "_name"⟩, ⟨"Rule", "_which"⟩,
@@ -172,14 +171,12 @@ def notRestored : List Slot := missing written (resetAssigns ++ ignorable)
 def ResetRestoresInitial : Prop := notRestored = []
 
 def expectedNotRestored : List Slot :=
-  [⟨"HeadPump", "_speed_timeseries.base_value"⟩, ⟨"PowerPump", "_speed_timeseries.base_value"⟩,
-   ⟨"Reservoir", "_leak_status"⟩]
+  [⟨"HeadPump", "_speed_timeseries.base_value"⟩, ⟨"PowerPump", "_speed_timeseries.base_value"⟩]
 
 theorem reset_missing_that_matters : notRestored = expectedNotRestored := by decide +kernel
 
-/-- **the full statement is false of the code**: the pump speed written by a `base_speed` action is not restored, nor is
-a reservoir's `_leak_status` (written by `ControlAction(reservoir, 'leak_status', …)`; the generic `node.leak_status` code
-and the change tracker read it: known finding with a proposed one-line repair of `reset_initial_values`) -/
+/-- **the full statement is false of the code**: the pump speed written by a `base_speed` action is not restored
+(a reservoir's `_leak_status` was a second such slot until /repo 42c3d93b made `reset_initial_values` clear it) -/
 theorem reset_restores_initial_counterexample : ¬ ResetRestoresInitial := by
   unfold ResetRestoresInitial; rw [reset_missing_that_matters]; decide
 
